@@ -83,7 +83,7 @@ partial def toNode (j : Json) : R Node := do
     let e ← match optObj j "expr" with
       | some x => pure (some (← toArith x))
       | none => pure none
-    return .arithCmd e (← reds)
+    return .arithCmd e (optStr j "raw") (← reds)
   | "comment" => return .comment
   | "empty" => return .empty
   | other => return .other (strD j "kind" other)
@@ -407,7 +407,10 @@ def handle (j : Json) : R Json := do
     let d := analyzeStr w stdHelp (natD j "fuel" 64) (← str j "cmd") (← str j "cwd") (boolD j "remote" false)
     return decisionJson d
   | "scan" =>
-    return Json.arr ((scan (← str j "s")).map Json.str).toArray
+    return Json.arr ((scanItems (← str j "s")).map fun it => match it with
+      | .sub inner rel => Json.mkObj [("sub", Json.str inner), ("reliable", Json.bool rel)]
+      | .unanalyzable t => Json.mkObj [("unanalyzable", Json.str t)]).toArray
+  | "arithtexts" => return Json.arr ((arithTexts (← str j "s")).map Json.str).toArray
   | "combine" =>
     let ds ← (arrD j "ds").toList.mapM fun e => do
       let a := match strD e "action" "ask" with
